@@ -36,6 +36,8 @@ def build(contracts):
     u.prove(FM, 'new', 'impl NaiveWeek {', cid='NaiveWeek::new')
     for n in ['checked_first_day', 'checked_last_day']:
         u.prove(FM, n, 'impl NaiveWeek {', cid='NaiveWeek::' + n)
+    for n in ['first_day', 'last_day']:
+        u.prove(FM, n, 'impl NaiveWeek {', cid='NaiveWeek::' + n)
     u.raw('}')
     u.raw(P.FOOTER)
     return u
